@@ -27,7 +27,7 @@ def main():
     try:
         dst = os.path.join(tmp, 'repo')
         shutil.copytree('/repo', dst, ignore=shutil.ignore_patterns(
-            '.git', '__pycache__', '*.pyc', 'doc', 'releasenotes'))
+            '.git', '__pycache__', '*.pyc', 'releasenotes'))
         p = os.path.join(dst, fn)
         s = open(p).read()
         old = old.encode().decode('unicode_escape') if '\\n' in old else old
